@@ -6,7 +6,7 @@ patch="$1"; shift
 cd /repo || exit 2
 if [ -n "$(git status --porcelain)" ]; then echo "/repo not clean"; exit 2; fi
 git apply "$patch" || { echo "patch does not apply"; exit 2; }
-cd /verif
+cd "${VERIF_DIR:-/verif}"
 for p in "$@"; do
   out=$(./check "$p" quick 2>&1)
   rc=$?
